@@ -61,7 +61,7 @@ def classes(tokens):
             if (prv is not None and (is_lt(prv) or prv == ')' or prv in HEADER_KW)) or (nxt is not None and is_lt(nxt)) \
                     or starts_slash(nsig) or '\n' in t or '\r' in t or ' ' in t or ' ' in t:
                 out.add('KF-04a')
-        if t == '/' and nxt is not None and is_lt(nxt):
+        if t in ('/', '/=') and nxt is not None and is_lt(nxt):
             out.add('KF-03f')
         if t in ('++', '--', '}') and nsig == '/=':
             out.add('KF-05e')
